@@ -38,6 +38,7 @@ type VerifRunLoopSnap struct {
 	CfgHandshakeTimeout  int64
 	PeerMaxIdleTimeout   int64 // -1: no peer parameters yet
 	PeerAdvertisedIdle   int64 // params.AdvertisedMaxIdleTimeout where the field exists, else 0
+	OwnAdvertisedIdle    int64 // Conn.advertisedIdleTimeout where the field exists, else 0
 	CreationTime         int64
 	LastPacketReceived   int64
 	FirstAckElicitingAft int64
@@ -91,6 +92,10 @@ func VerifRunLoopSnapshot(c *Conn) VerifRunLoopSnap {
 		NextIdle:             int64(c.nextIdleTimeoutTime()),
 		NextKeepAlive:        int64(c.nextKeepAliveTime()),
 		Closed:               c.closeErr.Load() != nil,
+	}
+	// (read by name so that the harness also compiles against a tree without that field)
+	if f := reflect.ValueOf(c).Elem().FieldByName("advertisedIdleTimeout"); f.IsValid() {
+		s.OwnAdvertisedIdle = f.Int()
 	}
 	if c.peerParams != nil {
 		s.PeerMaxIdleTimeout = int64(c.peerParams.MaxIdleTimeout)
